@@ -26,6 +26,24 @@ def leaf_value(path):
     return onp.array([base, base + 0.25])
 
 
+# lists and dicts that live across cases and are restructured IN PLACE between differentiations: results must not depend on
+# what the same object looked like when it was differentiated before (C12 for mutable containers, C19)
+PERSIST = {"list": [], "dict": {}}
+
+
+def build_root(tree, variant):
+    v = build(tree, [], variant)
+    if variant >= 2 and tree["k"] in ("list", "dict"):
+        obj = PERSIST[tree["k"]]
+        obj.clear()
+        if tree["k"] == "list":
+            obj.extend(v)
+        else:
+            obj.update(v)
+        return obj
+    return v
+
+
 def build(tree, path, variant):
     k = tree["k"]
     if k == "leaf":
@@ -129,7 +147,7 @@ def run(case):
     o = {"id": case["id"], "tree": tree, "prog": prog, "outmode": outmode, "err": "", "grad": [], "flat_ok": True, "unflat_ok": True,
          "commute_ok": True, "jvp": "skip", "jvp_expected": 0, "struct_ok": True, "type_ok": True}
     try:
-        value = build(tree, [], variant)
+        value = build_root(tree, variant)
         sizes = leaf_sizes(tree, [])
 
         def f(c):
